@@ -32,7 +32,7 @@ type Case struct {
 var checker = &vk.Checker[Case]{
 	ID: "C06",
 	Rule: "streams of 1..6 frames x message kinds (real protobuf BytesValue/StringValue/Int64Value/Empty and a legacy Marshal/Unmarshal message, each also versioned where it can carry a version) x versions of 0..16 bytes not ending in NUL (interior NULs, '', '1.0.0', 16 bytes boosted) x payload lengths {0,1,2,31,32,33,127,128,...,16383,16384, up to 64 KiB thorough} " +
-		"x sink {bytes.Buffer, iohelper.AtToWriter} x reader {whole, 1 byte per Read, drawn chunk sizes, data together with io.EOF, (0,nil) reads, iohelper.AtToReader}. Oracle: hand-written wire encoder (version NUL-padded to 16 | LE64(32) | LE64(len body) | body; protobuf bodies encoded by hand, self-tested against the protobuf library) and a stream model: " +
+		"x sink {bytes.Buffer, iohelper.AtToWriter} x reader {whole, 1 byte per Read, drawn chunk sizes, data together with io.EOF, (0,nil) reads, iohelper.AtToReader, and the standard-library reader types bufio.Reader (default and 16-byte buffer), bytes.Reader, bytes.Buffer, strings.Reader, io.LimitReader, iotest.DataErrReader, iotest.HalfReader}; every other frame is decoded into a destination that already holds other content. Oracle: hand-written wire encoder (version NUL-padded to 16 | LE64(32) | LE64(len body) | body; protobuf bodies encoded by hand, self-tested against the protobuf library) and a stream model: " +
 		"bytes appended == expected, n == len == Size == HeaderSize+len(body), ReadHeader == (32,{ver,32,len body}); the k-th Unmarshal returns the k-th message, its version, n == frame length, cumulative consumption == sum of frame lengths (never reads into the next frame), then io.EOF with n=0. " +
 		"Non-trivial: >= 2 frames or a body length other than 32, read with a non-'whole' chunking. Distinct by hash of the case.",
 	Check:    check,
@@ -102,10 +102,19 @@ func check(c Case) *vk.Failure {
 	// read back
 	var r io.Reader
 	var consumed func() int
-	switch c.Reader {
-	case "attoreader":
+	isStd := false
+	for _, k := range pbm.StdReaders {
+		isStd = isStd || k == c.Reader
+	}
+	switch {
+	case c.Reader == "attoreader":
 		cr := &pbm.CountingReader{R: iohelper.AtToReader(bytes.NewReader(stream), 0)}
 		r, consumed = cr, func() int { return cr.Consumed }
+	case isStd:
+		// standard-library reader types (implementations sometimes special-case them); buffered ones read
+		// ahead by design, so consumption is only accounted for the unbuffered ones
+		r = pbm.WrapReader(c.Reader, stream)
+		consumed = nil
 	default:
 		cr := pbm.NewChunkReader(stream, c.Reader, c.Sizes)
 		r, consumed = cr, func() int { return cr.Consumed }
@@ -114,6 +123,9 @@ func check(c Case) *vk.Failure {
 	for i, fr := range c.Frames {
 		f := fr.PB()
 		msg := f.Fresh()
+		if (i+len(c.Frames)+len(f.Payload))%2 == 1 {
+			msg = f.Dirty() // a destination that already holds other content (reused across frames)
+		}
 		var n int64
 		var ver string
 		var err error
@@ -127,7 +139,7 @@ func check(c Case) *vk.Failure {
 			return vk.Failf("unmarshal-count", "frame %d (%s reader): Unmarshal returned n=%d, the frame has %d bytes", i, c.Reader, n, lens[i])
 		}
 		total += lens[i]
-		if consumed() != total {
+		if consumed != nil && consumed() != total {
 			return vk.Failf("consumption", "frame %d (%s reader): %d bytes consumed from the stream after this call, frames so far have %d", i, c.Reader, consumed(), total)
 		}
 		if ver != f.WantVersion() {
@@ -223,6 +235,9 @@ func genCase(t *rapid.T) Case {
 	}
 	c.Sink = []string{"buffer", "attowriter"}[gen.Uniform(t, 2, "sink")]
 	c.Reader = []string{"whole", "one", "sizes", "sizes", "eofdata", "zero", "attoreader"}[gen.Uniform(t, 7, "reader")]
+	if gen.Chance(t, 1, 4, "stdreader") {
+		c.Reader = pbm.StdReaders[gen.Uniform(t, len(pbm.StdReaders), "std")]
+	}
 	if c.Reader == "sizes" || c.Reader == "eofdata" || c.Reader == "zero" {
 		k := 1 + gen.Uniform(t, 5, "nsizes")
 		for i := 0; i < k; i++ {
@@ -265,7 +280,7 @@ func TestGrid(t *testing.T) {
 				continue
 			}
 			for _, n := range []int{0, 1, 30, 31, 32, 33, 126, 127, 128} {
-				for _, rd := range []string{"whole", "one", "sizes", "eofdata", "zero", "attoreader"} {
+				for _, rd := range append([]string{"whole", "one", "sizes", "eofdata", "zero", "attoreader"}, pbm.StdReaders...) {
 					f := Frame{Kind: kind, Versioned: vi > 0, Ver: ver}
 					if kind == "int64" {
 						f.Int = int64(n) * 1000003
